@@ -1027,7 +1027,7 @@ def run(ctx, res):
         unordered = i % 2 == 1
         cases.append((multi_case(rng, unordered), "superdtl" if unordered else "ext_spfs"))
     run_solver_cases(ctx, res, cases)
-    res.exhaustive = True
+    res.exhaustive = False  # the enumerator scopes are exhaustive over shapes (see RULE), the property as a whole is not
 
 
 def shrink(ctx, violation):
